@@ -151,6 +151,35 @@ theorem plain_ite (hE : ∀ b s, E b s = execB act cond E (Hf b) s) (c : Nat) (t
 theorem compile_act_single (a : Nat) (k : Stmt) (x : Nat) (s : CSt) :
     compile (.act a k) [x] s = compile k [x] (s.append x (.act a)) := rfl
 
+/-- a loop is never plain -/
+theorem plain_while (cc : Option Nat) (b k : Stmt) (hb : frag1 b = true) (hk : frag1 k = true) (x : Nat) (s : CSt)
+    (hi : Inv s [x]) (hn : NoTr x (compile (.while_ cc b k) [x] s).1) : False := by
+  have hx : x < s.next := hi.hlt.1 x (by simp)
+  obtain ⟨W, hA⟩ := wS4_frag_step cc b hb [x] s hi.hlt hi.start
+  have hlw := W.hlt hi.hlt
+  have hn4 := W.next_le
+  cases cc with
+  | none =>
+    rw [compile_while_frag_none b k hb] at hn
+    have X := (HeapExt.append (wS4 b [x] s) [wHb [x] s] (wHb [x] s) (by simp) (.sub (wBody [x] s))).step hlw.1
+    have Tk := frag1_step' k hk [] _ ⟨by simp, (X.hlt hlw).2⟩
+      (fun h' => by rw [X.atStart_false hlw.2 hA] at h'; cases h')
+    rcases NoTr.range Tk hn with h | h
+    · simp at h
+    · have := X.next_le; omega
+  | some c' =>
+    rw [compile_while_frag_some c' b k hb] at hn
+    have N := Step.newBlock (wS4 b [x] s) [wHb [x] s] hlw.1 (some (wHb [x] s)) (by simp)
+    have hln := N.hlt hlw
+    have X := (HeapExt.append ((wS4 b [x] s).newBlock (some (wHb [x] s))).2 [(wS4 b [x] s).next, wHb [x] s] (wHb [x] s)
+      (by simp) (.ite c' (wBody [x] s) (wS4 b [x] s).next)).step hln.1
+    have hlx := X.hlt hln
+    have Tk := frag1_step' k hk [(wS4 b [x] s).next] _ ⟨fun o ho => hlx.1 o (by simp at ho; simp [ho]), hlx.2⟩
+      (fun h' => by rw [X.atStart_false hln.2 (N.atStart_false hlw.2 hA)] at h'; cases h')
+    rcases NoTr.range Tk hn with h | h
+    · simp at h; omega
+    · have := X.next_le; have := N.next_le; omega
+
 /-- a statement of fragment 1 that is translated without transition only appends pure code to its block -/
 theorem plain1 (hE : ∀ b s, E b s = execB act cond E (Hf b) s) :
     ∀ (t : Stmt), frag1 t = true → PlainIH act cond Hf E Rf Sf t := by
@@ -182,7 +211,10 @@ theorem plain1 (hE : ∀ b s, E b s = execB act cond E (Hf b) s) :
     intro h
     simp only [frag1, Bool.and_eq_true] at h
     exact plain_ite act cond Hf E Rf Sf hE c t e k h.1.1 h.1.2 h.2 (iht h.1.1) (ihe h.1.2) (ihk h.2)
-  | while_ c b k _ _ => intro h; simp [frag1] at h
+  | while_ cc b k _ _ =>
+    intro h x s P' hi hn _ _
+    simp only [frag1, Bool.and_eq_true] at h
+    exact (plain_while cc b k h.1 h.2 x s hi hn).elim
   | brk => intro h; simp [frag1] at h
   | cont => intro h; simp [frag1] at h
   | ret => intro h; simp [frag1] at h
